@@ -19,7 +19,7 @@ SPECIAL_GRIDS = [(2000, 2010, 2015, 2030), (2000, 2003, 2004, 2009), (2000, 2002
 
 def grids(n_items=(3, 4, 5), steps=(1, 2, 5), origin=2000):
     """all strictly increasing integer grids with the given step alphabet (+ the special grids)"""
-    out = list(SPECIAL_GRIDS)
+    out = list(SPECIAL_GRIDS) + list(SUBANNUAL_GRIDS)
     for n in n_items:
         for st in itertools.product(steps, repeat=n - 1):
             g = [origin]
@@ -42,7 +42,10 @@ QUICK_GRIDS = [
     (2000, 2001, 2003), (2000, 2005, 2006), (2000, 2001, 2003, 2008), (2000, 2005, 2007, 2008),
     (2000, 2001, 2003, 2008, 2009), (2000, 2005, 2006, 2008, 2013), (2000, 2002, 2003, 2008, 2010),
     (2000, 2010, 2015, 2030), (2000, 2003, 2004, 2009),
+    # sub-annual grids (time items are floats, every interval shorter than or around one year)
+    (2000, 2000.5, 2001, 2001.5), (2000, 2000.25, 2001, 2001.5, 2003.5),
 ]
+SUBANNUAL_GRIDS = [(2000, 2000.5, 2001, 2001.5), (2000, 2000.25, 2001, 2001.5, 2003.5), (2000, 2000.5, 2001), (2000.75, 2001, 2001.125, 2001.5)]
 
 
 def bounds(g):
